@@ -5,7 +5,7 @@
   `rrule._iter` for all seven frequencies.  The model follows the code that exists: Python's
   negative-index wrap-around and `IndexError` on the computed masks (`setIdx`/`Py.getIdx`), the
   `None` returned by `__mod_distance` (a `TypeError` at the unpacking site), the `ValueError`s
-  of `datetime.time(...)`/`date.fromordinal(...)`/`date(year-1, 1, 1)`.
+  of `datetime.time(...)`/`date.fromordinal(...)`.
   The month / month-day / weekday tables are the *dumped* ones (`Gen.M366MASK` …), never re-typed.
   No Mathlib import (linked into the driver).
 -/
@@ -269,15 +269,14 @@ def buildWnomask (wkst : Int) (byweekno : List Int) (year yearlen yearweekday : 
   if no1wkst ≠ 0 then
     let lnumweeks ←
       if !(byweekno.contains (-1)) then
-        if year - 1 < 1 then throw PyErr.ValueError        -- datetime.date(year-1, 1, 1)
+        let lyearlen : Int := 365 + (if Cal.isLeap (year - 1) then 1 else 0)
+        -- (self.yearweekday - lyearlen) % 7: no date(year-1, 1, 1), which does not exist for year 1
+        let lyearweekday := Py.fmod (yearweekday - lyearlen) 7
+        let lno1wkst := Py.fmod (7 - lyearweekday + wkst) 7
+        if lno1wkst ≥ 4 then
+          pure (52 + Py.fdiv (Py.fmod (lyearlen + Py.fmod (lyearweekday - wkst) 7) 7) 4)
         else
-          let lyearweekday := Cal.weekday (year - 1) 1 1
-          let lno1wkst := Py.fmod (7 - lyearweekday + wkst) 7
-          let lyearlen : Int := 365 + (if Cal.isLeap (year - 1) then 1 else 0)
-          if lno1wkst ≥ 4 then
-            pure (52 + Py.fdiv (Py.fmod (lyearlen + Py.fmod (lyearweekday - wkst) 7) 7) 4)
-          else
-            pure (52 + Py.fdiv (Py.fmod (yearlen - no1wkst) 7) 4)
+          pure (52 + Py.fdiv (Py.fmod (yearlen - no1wkst) 7) 4)
       else pure (-1)
     if byweekno.contains lnumweeks then
       (intRange 0 no1wkst).foldlM (fun mask i => setIdx mask i 1) mask2
